@@ -53,6 +53,12 @@ func VerifP_C11_Inverse(mode int) {
 			t0.LocalAddr = lang.Address{lang.RootStep{Name: "count"}, lang.AttrStep{Name: "index"}}
 			t0.TargetableFromRangePtr = &tfr
 			tfr1 := r1
+			// the second block may live in another file of the same path (same byte offsets)
+			if verifChoice("t1otherfile", 2) == 1 {
+				tfr1.Filename = "other.tf"
+				r1.Filename = "other.tf"
+				d1.Filename = "other.tf"
+			}
 			t1.LocalAddr = lang.Address{lang.RootStep{Name: "count"}, lang.AttrStep{Name: "index"}}
 			t1.TargetableFromRangePtr = &tfr1
 		}
@@ -98,7 +104,7 @@ func VerifP_C11_Inverse(mode int) {
 			verifAssert(t.Path.Path == targetPath.Path, "C11:resolved-against-the-right-path")
 			if mode == 2 && oAddr[0].String() == "count" {
 				// a block-local name resolves only to the enclosing block's declaration
-				verifAssert(verifAnd(t.Range.Start.Byte <= oRange.End.Byte, oRange.Start.Byte <= t.Range.End.Byte), "C11:local-name-resolves-only-inside-its-block")
+				verifAssert(verifAnd(t.Range.Filename == "o.tf", verifAnd(t.Range.Start.Byte <= oRange.End.Byte, oRange.Start.Byte <= t.Range.End.Byte)), "C11:local-name-resolves-only-inside-its-block")
 			}
 			if t.DefRangePtr == nil {
 				continue
